@@ -40,6 +40,7 @@ func c07Scenarios(thorough bool) []c07Scenario {
 		{Name: "lock-unknown-validator+unknown-token", Block: ev(enga.Event{Kind: "req:unknown-validator-lock"}, enga.Event{Kind: "req:unknown-token-lock"})},
 		{Name: "two-validators-leave", Block: ev(enga.Event{Kind: "req:unlock-big", N: 0}, enga.Event{Kind: "req:create", N: 3}), Setup: []enga.ABlock{ev(enga.Event{Kind: "req:create", N: 3})}},
 		{Name: "relayer-txs", Setup: busy[:1], Block: ev(enga.Event{Kind: "tx:deposits", N: 9}, enga.Event{Kind: "tx:process", N: 2}, enga.Event{Kind: "req:claim", N: 2})},
+		{Name: "deposit-batch-with-bad-headers", Setup: []enga.ABlock{ev(enga.Event{Kind: "tx:hashes", N: 2})}, Block: ev(enga.Event{Kind: "tx:deposits-bad-headers"}, enga.Event{Kind: "tx:deposits", N: 2})},
 		{Name: "failing-relayer-tx", Block: ev(enga.Event{Kind: "tx:newpubkey", Var: "existing"}, enga.Event{Kind: "tx:hashes", N: 1, Var: "gap"})},
 		{Name: "downtime+evidence", Block: enga.ABlock{Absent: []int{1}, Evidence: []int{1}}, Setup: []enga.ABlock{{Absent: []int{1}}}},
 	}
